@@ -246,6 +246,11 @@ func NewFloatFromString(typ *types.FloatType, s string) (*Float, error) {
 		if err != nil {
 			return nil, errors.WithStack(err)
 		}
+		// Like LLVM, read the decimal literal as a double first (see below); a
+		// literal below the range of doubles denotes zero.
+		if f64, err := strconv.ParseFloat(s, 64); err == nil {
+			x = big.NewFloat(f64).SetPrec(precision)
+		}
 		c := &Float{
 			Typ: typ,
 			X:   x,
@@ -256,6 +261,11 @@ func NewFloatFromString(typ *types.FloatType, s string) (*Float, error) {
 		x, _, err := big.ParseFloat(s, base, precision, big.ToNearestEven)
 		if err != nil {
 			return nil, errors.WithStack(err)
+		}
+		// Like LLVM, read the decimal literal as a double first (see below); a
+		// literal below the range of doubles denotes zero.
+		if f64, err := strconv.ParseFloat(s, 64); err == nil {
+			x = big.NewFloat(f64).SetPrec(precision)
 		}
 		c := &Float{
 			Typ: typ,
